@@ -206,6 +206,35 @@ impl tokio::io::AsyncWrite for FullSink {
     fn poll_shutdown(self: std::pin::Pin<&mut Self>, _: &mut std::task::Context<'_>) -> std::task::Poll<std::io::Result<()>> { std::task::Poll::Ready(Ok(())) }
 }
 
+/// A reader that delivers `good` bytes in small reads, then answers ONE read with the given error, then (if the error was
+/// EINTR) goes on. `delta` of an interrupted reader is `delta` of the data (std's `read_to_end` retries EINTR); a hard error
+/// in the middle is an error of `delta`, never a delta of the prefix read so far.
+struct FlakyReader<'a> { data: &'a [u8], pos: usize, good: usize, kind: std::io::ErrorKind, fired: bool }
+impl std::io::Read for FlakyReader<'_> {
+    fn read(&mut self, b: &mut [u8]) -> std::io::Result<usize> {
+        if !self.fired && self.pos >= self.good {
+            self.fired = true;
+            return Err(std::io::Error::new(self.kind, "injected"));
+        }
+        if self.fired && self.kind != std::io::ErrorKind::Interrupted {
+            return Err(std::io::Error::new(self.kind, "injected"));
+        }
+        let n = b.len().min(4096).min(self.data.len() - self.pos);
+        b[..n].copy_from_slice(&self.data[self.pos..self.pos + n]);
+        self.pos += n;
+        Ok(n)
+    }
+}
+impl tokio::io::AsyncRead for FlakyReader<'_> {
+    fn poll_read(mut self: std::pin::Pin<&mut Self>, _: &mut std::task::Context<'_>, b: &mut tokio::io::ReadBuf<'_>) -> std::task::Poll<std::io::Result<()>> {
+        let mut tmp = vec![0u8; b.remaining().min(4096)];
+        match std::io::Read::read(&mut *self, &mut tmp) {
+            Ok(n) => { b.put_slice(&tmp[..n]); std::task::Poll::Ready(Ok(())) }
+            Err(e) => std::task::Poll::Ready(Err(e)),
+        }
+    }
+}
+
 struct ShortWriter { out: Vec<u8>, max: usize }
 impl std::io::Write for ShortWriter {
     fn write(&mut self, b: &[u8]) -> std::io::Result<usize> { let n = b.len().min(self.max); self.out.extend_from_slice(&b[..n]); Ok(n) }
@@ -367,6 +396,24 @@ pub fn run_pair(w: &mut Out, p: &Pair, rtm: &tokio::runtime::Runtime, cli: Optio
     match guarded(|| rtm.block_on(AsyncCopiaSync::new().delta(Cursor::new(&p.src), &sig))) {
         Ok(Ok(d)) if d == d_sync => {}
         _ => w.fail(l, "engines-differ-delta", &format!("async delta differs from sync delta [{key}]")),
+    }
+    // the source read through a reader that fails once in the middle
+    if p.src.len() > 8192 {
+        let good = p.src.len() / 2;
+        let r_int = guarded(|| CopiaSync::new().delta(FlakyReader { data: &p.src, pos: 0, good, kind: std::io::ErrorKind::Interrupted, fired: false }, &sig));
+        if !matches!(&r_int, Ok(Ok(d)) if *d == d_sync) {
+            w.fail(l, "delta-of-interrupted-reader", &format!("a source reader that answers one read with EINTR and goes on: delta is {} (declared source size {:?}), not the delta of the source [{key}]",
+                match &r_int { Ok(Ok(_)) => "another delta", Ok(Err(_)) => "an error", Err(()) => "a panic" }, r_int.as_ref().ok().and_then(|x| x.as_ref().ok()).map(|d| d.source_size)));
+        }
+        let r_eio = guarded(|| CopiaSync::new().delta(FlakyReader { data: &p.src, pos: 0, good, kind: std::io::ErrorKind::Other, fired: false }, &sig));
+        if let Ok(Ok(d)) = &r_eio {
+            w.fail(l, "delta-of-failed-read-reported-as-success", &format!("a source reader that fails for good after {good} of {} bytes: delta returned Ok with declared source size {} [{key}]", p.src.len(), d.source_size));
+        }
+        let r_eio_a = guarded(|| rtm.block_on(AsyncCopiaSync::new().delta(FlakyReader { data: &p.src, pos: 0, good, kind: std::io::ErrorKind::Other, fired: false }, &sig)));
+        if let Ok(Ok(d)) = &r_eio_a {
+            w.fail(l, "delta-of-failed-read-reported-as-success", &format!("async engine, a source reader that fails for good after {good} of {} bytes: delta returned Ok with declared source size {} [{key}]", p.src.len(), d.source_size));
+        }
+        w.count("flaky-source-readers");
     }
     // well-formedness (C01)
     let sumlen: u64 = d_sync.ops.iter().map(DeltaOp::output_len).sum();
@@ -1023,6 +1070,24 @@ query = `patch` with full ops; answer = verdict + length and FNV hash of the byt
                     }
                 }
                 Some(_) => { if k % 3 != 2 { w.fail(l, "cli-valid-patch-refused", &format!("copia patch refused a valid (basis, delta): {err}")); } }
+            }
+            // the same patch into a PIPE whose reader takes 1000 bytes and leaves: the output was not delivered, so the exit
+            // status cannot be 0 (seed C05-L: a closed pipe mapped to a quiet success, "like a Unix filter")
+            if k % 3 == 0 {
+                std::fs::write(f("b"), &basis).ok();
+                let fifo = f("fifo");
+                let _ = std::fs::remove_file(&fifo);
+                let script = format!("mkfifo '{fifo}' && (head -c 1000 '{fifo}' >/dev/null &) ; '{}' patch '{}' '{}' -o '{fifo}' 2>/dev/null; echo rc=$?",
+                    c.bin.display(), f("b"), f("d"));
+                let out = std::process::Command::new("timeout").args(["30", "bash", "-c", &script]).env("RUST_LOG", "off").output();
+                w.count("cli-patch-into-closing-pipe");
+                if let Ok(o) = out {
+                    let txt = String::from_utf8_lossy(&o.stdout).into_owned();
+                    if txt.contains("rc=0") {
+                        w.fail(l, "cli-success-on-failed-output", &format!("copia patch -o <fifo> exited 0 although the reader left after 1000 of {} bytes", src.len()));
+                    }
+                }
+                let _ = std::fs::remove_file(&fifo);
             }
         }
     }
